@@ -682,6 +682,16 @@ func ucisched(args []string) {
 			steps := realScript(r)
 			run(fmt.Sprintf("real-%v-%d-%d", spec.Name, *seed, i), steps, nil, false, spec, *delay)
 		}
+		// the same root searched deeper first and shallower afterwards, with the hash table on (what the table
+		// holds from the deeper search must not keep the shallower ones from ending)
+		for i := 0; i < 3; i++ {
+			e := lightCorpus()[r.Intn(len(lightCorpus()))]
+			spec := ucih.EngineSpec{Name: "morlock", Hash: 1, Seed: r.Int63()}
+			steps := []stepT{{Kind: "cmd", Arg: "position fen " + e.Fen}, {Kind: "cmd", Arg: "go depth 3"}, {Kind: "pause", D: 150},
+				{Kind: "cmd", Arg: "go depth 1"}, {Kind: "pause", D: 60}, {Kind: "cmd", Arg: "go depth 2"}, {Kind: "pause", D: 80},
+				{Kind: "cmd", Arg: "isready"}, {Kind: "pause", D: 10}}
+			run(fmt.Sprintf("real-deeper-then-shallower-%d-%d", *seed, i), steps, nil, false, spec, *delay)
+		}
 		// roots whose best move is a promotion, with and without capture, for both colours: the answer must
 		// name the promotion piece
 		for i, f := range []string{"r6k/1P6/8/8/8/8/8/K7 w - - 0 1", "k7/8/8/8/8/8/1p6/R6K b - - 0 1", "1n2k3/P7/8/8/8/8/8/4K3 w - - 0 1",
